@@ -78,6 +78,25 @@ package native
 //@   ensures forall j int :: (ptrlo(dp) <= j && j < ptrindex(dp)) ==> rawat(dp, j) == old(rawat(dp, j))
 //@   ensures forall lo int, n int :: { rawtxtat(dp, lo, n) } (ptrlo(dp) <= lo && 0 <= n && lo + n <= ptrindex(dp)) ==> rawtxtat(dp, lo, n) == old(rawtxtat(dp, lo, n))
 
+// f64toa / f32toa(out, val): write the shortest round-trip decimal of a finite val at
+// out (at most 32 bytes) and return its length.  The text is abstract (f64Spec /
+// f32Spec); the two facts the Go wrappers rely on are stated: zero prints as "0" and
+// negative zero as "-0" (as encoding/json does).
+//@ pure func f64Spec(v float64) text
+//@ pure func f32Spec(v float32) text
+//@ axiom f64_zero: forall v float64 :: isZero(v) ==> f64Spec(v) == ite(isNegative(v), txt("-0"), txt("0"))
+//@ axiom f32_zero: forall v float32 :: isZero(v) ==> f32Spec(v) == ite(isNegative(v), txt("-0"), txt("0"))
+//@ func F64toa assumed "native f64toa (pre-assembled machine code)"
+//@   requires ptrlo(out) <= ptrindex(out) && ptrindex(out) + 32 <= ptrhi(out) && !isNaN(val) && !isInf(val)
+//@   modifies rawmem(out)
+//@   ensures 0 < result && result <= 32 && rawtxt(out, result) == f64Spec(val)
+//@   ensures forall j int :: (ptrlo(out) <= j && j < ptrindex(out)) ==> rawat(out, j) == old(rawat(out, j))
+//@ func F32toa assumed "native f32toa (pre-assembled machine code)"
+//@   requires ptrlo(out) <= ptrindex(out) && ptrindex(out) + 32 <= ptrhi(out) && !isNaN(val) && !isInf(val)
+//@   modifies rawmem(out)
+//@   ensures 0 < result && result <= 32 && rawtxt(out, result) == f32Spec(val)
+//@   ensures forall j int :: (ptrlo(out) <= j && j < ptrindex(out)) ==> rawat(out, j) == old(rawat(out, j))
+
 // ---- dispatch wiring (C13): each slot of the function-pointer table is filled
 // with the same-named routine of ONE instruction-set package; both variants fill
 // the same set of slots; init selects by CPU feature.
